@@ -327,8 +327,28 @@ def _unmat(m):
     return arr(m.tolist())
 
 
-def _np_where(*a):
-    raise Opaque('np.where')
+def _truth(v):
+    if isinstance(v, (bool, np.bool_)):
+        return bool(v)
+    if v is sp.true or v is sp.false:
+        return bool(v)
+    if isinstance(v, (int, sp.Number)):
+        return v != 0
+    raise Opaque('np.where on an undecided condition %s' % (v,))
+
+
+def _np_where(cond, *xy):
+    c = np.asarray(cond, dtype=object)
+    flags = np.array([_truth(v) for v in c.ravel()], dtype=bool).reshape(c.shape)
+    if not xy:
+        return tuple(np.nonzero(flags))
+    if len(xy) != 2:
+        raise ModelError('ValueError', 'either both or neither of x and y should be given')
+    x, y = (np.broadcast_to(np.asarray(v, dtype=object), flags.shape) for v in xy)
+    out = np.empty(flags.shape, dtype=object)
+    out[flags] = x[flags]
+    out[~flags] = y[~flags]
+    return out
 
 
 def _asarr(x, *a, **k):
@@ -419,6 +439,7 @@ NP_FUNCS = {
     'numpy.min': lambda x, **k: sp.Min(*np.asarray(x, dtype=object).flat), 'numpy.max': lambda x, **k: sp.Max(*np.asarray(x, dtype=object).flat),
     'numpy.amin': lambda x, **k: sp.Min(*np.asarray(x, dtype=object).flat), 'numpy.amax': lambda x, **k: sp.Max(*np.asarray(x, dtype=object).flat),
     'numpy.logical_not': lambda x: (not x) if isinstance(x, bool) else np.array([not v if isinstance(v, (bool, np.bool_)) else sp.Not(v) for v in np.asarray(x, dtype=object).flat], dtype=object).reshape(np.shape(x)),
+    'numpy.where': _np_where,
     'numpy.real': lambda x: vmap(sp.re, x), 'numpy.imag': lambda x: vmap(sp.im, x),
     'copy.deepcopy': lambda x: _copy(x), 'copy.copy': lambda x: _copy(x),
 }
@@ -668,26 +689,48 @@ class SymEval:
                 raise WouldRaise('ValueError: %s in %s' % (e, norm(n)))
             raise
 
-    def e_BoolOp(self, n, p):
-        vals = []
-        is_and = isinstance(n.op, ast.And)
-        for x in n.values:   # short circuit on decided operands, as Python does
-            v = self.ev(x, p)
-            if isinstance(v, (bool, np.bool_)) or v is None:
-                if is_and and not v:
-                    return False
-                if not is_and and v:
-                    return True
-            vals.append(v)
-        if is_and:
-            rest = [v for v in vals if v is not True]
-            if not rest:
-                return True
-            return rest[0] if len(rest) == 1 else sp.And(*rest)
-        rest = [v for v in vals if v is not False and v is not None]
-        if not rest:
+    @staticmethod
+    def _decided(v):
+        """Python truth value of an analyser value when it is decided, else None"""
+        if isinstance(v, (bool, np.bool_)):
+            return bool(v)
+        if v is None:
             return False
-        return rest[0] if len(rest) == 1 else sp.Or(*rest)
+        if v is sp.true or v is sp.false:
+            return bool(v)
+        if isinstance(v, (list, tuple, dict, str, set)):
+            return len(v) > 0
+        if isinstance(v, (int, float, sp.Number)):
+            return v != 0
+        return None
+
+    def e_BoolOp(self, n, p):
+        is_and = isinstance(n.op, ast.And)
+        last = len(n.values) - 1
+        und = []                           # operands whose truth is not decided
+        for i, x in enumerate(n.values):   # short circuit on decided operands, as Python does (the operand itself is the value)
+            v = self.ev(x, p)
+            d = self._decided(v)
+            if d is None:
+                und.append(v)
+                continue
+            if is_and:
+                if not d:
+                    return v if not und else False
+                if i == last:
+                    if not und:
+                        return v
+                    break
+            else:
+                if d:
+                    return v if not und else True
+                if i == last:
+                    if not und:
+                        return v
+                    break
+        if len(und) == 1:
+            return und[0]
+        return sp.And(*und) if is_and else sp.Or(*und)
 
     def e_Compare(self, n, p):
         left = self.ev(n.left, p)
@@ -1243,8 +1286,10 @@ class SymEval:
             return False
         if isinstance(v, (list, tuple, dict, str)):
             return len(v) > 0
-        if isinstance(v, sp.Integer):
-            return v != 0
+        if isinstance(v, (int, float, sp.Number, np.bool_)):
+            return bool(v != 0)
+        if isinstance(v, set):
+            return len(v) > 0
         if self.decide is not None:
             r = self.decide(norm(node), v, p)
             if r is not None:
